@@ -551,4 +551,111 @@ theorem decodeCompressedLoop_static (T : Tables) (edition s4max : Nat) (g : Rang
         · rw [hdn]
           simp only [List.zipWith_cons_cons, pushCols, decPos, hns, Bool.false_eq_true, if_false]
 
+/-! ### encoder output into the lock-step decoder -/
+
+theorem putColumn_skipped (w : W) (n0 : Node) (rest : List Node) (h : n0.flags.skipped = true) :
+    putColumn w (n0 :: rest) = w := by
+  unfold putColumn; simp [h]
+
+/-- the compressed body: the columns in template order, nothing in between -/
+theorem foldl_putColumn_bits (k : Nat) : ∀ (nodes : List Node) (cols : List (List Node)) (w : W), WInv w →
+    List.Forall₂ (PosOK k) nodes cols →
+    (cols.foldl putColumn w).bits = w.bits ++ cols.flatMap colBits ∧ WInv (cols.foldl putColumn w) := by
+  intro nodes
+  induction nodes with
+  | nil => intro cols w hI hp; cases hp; simp [hI]
+  | cons n ns ih =>
+    intro cols w hI hp
+    cases hp with
+    | cons hpos hps =>
+    rename_i col cols'
+    have hstep : (putColumn w col).bits = w.bits ++ colBits col ∧ WInv (putColumn w col) := by
+      cases col with
+      | nil => simp [putColumn, colBits, hI]
+      | cons m0 rest =>
+        by_cases hsk : n.flags.skipped = true
+        · have hm : m0.flags.skipped = true := by rw [hpos.skipped m0 (by simp)]; exact hsk
+          rw [putColumn_skipped w m0 rest hm, colBits_cons, hm]; simp [hI]
+        · have hns : n.flags.skipped = false := by simpa using hsk
+          have hc := hpos.ok hns
+          apply putColumn_bits w hI
+          · intro n0 r0 heq hna m hm
+            have e0 : n0 = m0 := by injection heq with a _; exact a.symm
+            have haf : n.enc.afNbits ≠ 0 := by
+              intro h0; apply hna; left; rw [e0, hc.enc m0 (by simp)]; exact h0
+            exact (hc.af haf m hm).2.1
+          · intro n0 r0 heq
+            have e0 : n0 = m0 := by injection heq with a _; exact a.symm
+            rw [e0, hc.enc m0 (by simp)]; exact hc.notIeee
+    obtain ⟨q1, q2⟩ := ih cols' (putColumn w col) hstep.2 hps
+    simp only [List.foldl_cons, List.flatMap_cons]
+    exact ⟨by rw [q1, hstep.1, List.append_assoc], q2⟩
+
+theorem pushCols_length (k : Nat) : ∀ (nodes : List Node) (cols : List (List Node)), List.Forall₂ (PosOK k) nodes cols →
+    ∀ (d : List (List Node)), d.length = k + 1 → (pushCols (List.zipWith (decPos k) nodes cols) d).length = k + 1 := by
+  intro nodes
+  induction nodes with
+  | nil => intro cols hp d hd; cases hp; simpa [pushCols] using hd
+  | cons n ns ih =>
+    intro cols hp d hd
+    cases hp with
+    | cons hpos hps =>
+    rename_i col cols'
+    simp only [List.zipWith_cons_cons, pushCols]
+    apply ih _ hps
+    have : (decPos k n col).length = k + 1 := by
+      unfold decPos; split
+      · simp
+      · simp [hpos.len]
+    rw [List.length_zipWith, this, hd]; simp
+
+/-- the per-subset result of pushing the positions onto empty lists: position `j` of subset `i` -/
+def transposeDec (k : Nat) (nodes : List Node) (cols : List (List Node)) : List (List Node) :=
+  (pushCols (List.zipWith (decPos k) nodes cols) (List.replicate (k + 1) [])).map List.reverse
+
+/-- **C02, static templates, compressed form.**  `bsq` is the decoder's template copy (static: no
+delayed replication, no 2 03), `cols` the encoder's columns for `k+1` subsets, position by position
+of the same layout with values in range (`PosOK`).  Reading the compressed body the encoder wrote,
+the lock-step decoder returns `k+1` subsets holding `decElem` at every data position — the value the
+subset had — does not flag the dataset invalid beyond what it was, and stops right after the last
+column. -/
+theorem compressed_static_roundtrip (T : Tables) (edition s4max : Nat) (enforce : Enforce) (k : Nat) (fuel : Nat)
+    (bsq : List Node) (cols : List (List Node)) (w : W) (hIw : WInv w) (hw0 : w.bits = [])
+    (hfuel : bsq.length < fuel) (hok : staticOK T edition { enforce := enforce } bsq = true)
+    (hp : List.Forall₂ (PosOK k) bsq cols) (err : Bool) (r : R) (hI : RInv r) (pad : List Bool)
+    (hb : r.bits = (cols.foldl putColumn w).bits ++ pad) :
+    ∃ st', decodeCompressedLoop T edition s4max (⟨k + 1, 0, 0⟩ : Range) fuel
+        { r := r, invalid := err, ddos := List.replicate (k + 1) { enforce := enforce },
+          dones := List.replicate (k + 1) [], todos := List.replicate (k + 1) bsq } = .ok st' ∧
+      st'.invalid = err ∧
+      List.zipWith (fun d t => mkvalAll (d.reverse ++ t)) st'.dones st'.todos =
+        (transposeDec k bsq cols).map mkvalAll ∧
+      st'.r.bits = pad := by
+  obtain ⟨eb, _⟩ := foldl_putColumn_bits k bsq cols w hIw hp
+  rw [eb, hw0, List.nil_append] at hb
+  obtain ⟨st', e, hinv, htd, hdn, hbt⟩ := decodeCompressedLoop_static T edition s4max ⟨k + 1, 0, 0⟩ k (by simp) rfl
+    bsq cols fuel { enforce := enforce }
+    { r := r, invalid := err, ddos := List.replicate (k + 1) { enforce := enforce },
+      dones := List.replicate (k + 1) [], todos := List.replicate (k + 1) bsq } pad hfuel hok hp rfl rfl (by simp) rfl hI hb
+  refine ⟨st', e, hinv, ?_, hbt⟩
+  rw [htd, hdn]
+  unfold transposeDec
+  generalize hD : pushCols (List.zipWith (decPos k) bsq cols) (List.replicate (k + 1) []) = D
+  -- every todo list is empty: the subsets are the reversed done lists
+  have : ∀ (D : List (List Node)) (j : Nat), List.zipWith (fun d t => mkvalAll (d.reverse ++ t)) D (List.replicate j []) =
+      ((D.take j).map List.reverse).map mkvalAll := by
+    intro D
+    induction D with
+    | nil => intro j; simp
+    | cons d ds ih2 =>
+      intro j
+      cases j with
+      | zero => simp
+      | succ j => simp [List.replicate_succ, ih2 j]
+  rw [this]
+  have hlen : D.length = k + 1 := by
+    rw [← hD]
+    exact pushCols_length k bsq cols hp _ (by simp)
+  rw [List.take_of_length_le (by omega)]
+
 end Bufr
